@@ -32,6 +32,10 @@ def violators (e : Env) (s : State) : List (String × String × List String) :=
         let open_ := s.orders.filter (fun o => o.dataId = m.dataId && o.status ≠ OrderCompleted)
         if (if m.status = MetaComplete then open_.isEmpty else open_.map (·.id) = [m.orderId]) then none else some s!"meta-order{m.orderId}")),
     ("C20", "superInv", s.nodes.filterMap (fun n => if n.role = 0 || superPredicate s n then none else some s!"node{n.creator}")),
+    ("C17", "didFunctional", if didFunctional s.did then [] else ["did"]),
+    ("C17", "didListsAgree", if didListsAgree s.did then [] else ["did"]),
+    ("C17", "sidPayAddrBound", if sidPayAddrBound s.did then [] else ["did"]),
+    ("C17", "keyPayAddrSelf", if keyPayAddrSelf s.did then [] else ["did"]),
     ("C06", "solventOrder", if solventOrder e s then [] else ["order-escrow"]),
     ("C06", "solventNode", if solventNode e s then [] else ["node-escrow"]) ]
 
@@ -81,6 +85,10 @@ def checkStep (e : Env) (pre : Sys) (op : Op) (res : Res) (post : Sys) : List (S
    | .hang => [("C02", s!"clause=hang cls={match (step e pre op).1 with | .hang => "model-predicted" | _ => "unpredicted"}")]
    | .panic => [("C02", s!"clause=blocker-panic cls={cls}")]
    | _ => []) ++
+  -- C17: a binding was created although the signed proof message does not name the DID
+  (match op, res with
+   | .binding m, .ok => if m.proofNamesDid then [] else [("C17", "clause=proofNamesDid cls=unbound-message")]
+   | _, _ => []) ++
   -- C03/C01: a package-variable residue is created by this step (it outlives the transaction)
   (if pre.global = 0 && post.global ≠ 0 then [("C03", s!"clause=globalResidue cls={match res with | .ok => "ok-tx" | _ => "failed-tx"}")] else []) ++
   (if isBlockEnd op && res = .ok && !timeoutPending post.st then [("C12", s!"clause=timeoutPending cls={cls}")] else [])
